@@ -98,11 +98,37 @@ def expressible(fmt, cls, kinds):
 TETRAD_RESERVED = [";"]
 TETRAD_SPECIALS = ["007", "42", "-->", "<--", "o-o", "<->", "---", "o->", "1.", "2.", "Nodes:", "Edges:", "Graph", "Graph_Nodes:",
                    ".", ":", "-", ">", "<", "o", "a,b", ",", "x|y", "1.5", "-1"]
-TETRAD_INEXPRESSIBLE = ["Graph Nodes:", "Graph Edges:", "a b", "x Nodes:", " lead", "trail ", "a\tb", "x;y", ";", "", " ", "a\nb"]
+# non-ASCII names (the writer and the reader must use the same encoding): Greek, accented Latin (precomposed and with a
+# combining accent), CJK, emoji, sharp s / dotted capital I (case-mapping oddities), zero-width space, BOM inside a name
+TETRAD_NONASCII = ["\u03b1", "\u03b1\u03b2\u03b3", "\u00e9", "e\u0301", "caf\u00e9", "\u8282\u70b9", "\U0001F600", "x\U0001F600y", "\u00df",
+                   "\u0130", "x\u200by", "\ufeffx", "\u00b2", "U\u00b2", "U\u2460", "\u00ff", "\u00c3\u00a9", "\u0416-->\u0416"]
+# U+00A0 / U+2003 / U+0085 / U+2028 / U+001C are whitespace for str.split(): outside the grammar, like a blank
+TETRAD_INEXPRESSIBLE = ["a\u00a0b", "\u00a0", "a\u2003b", "a\u0085b", "a\u2028b", "\u001c","Graph Nodes:", "Graph Edges:", "a b", "x Nodes:", " lead", "trail ", "a\tb", "x;y", ";", "", " ", "a\nb"]
 
 
 def tetrad_expressible(label):
     return label != "" and label.split() == [label] and not any(c in label for c in TETRAD_RESERVED)
+
+
+LAYOUTS = ["F", "T", "slice", "ro", "F+ro", "slice+T"]
+
+
+def _layout(A, lay):
+    """the same values, another memory layout"""
+    import numpy as np
+    for step in (lay or "").split("+"):
+        if step == "F":
+            A = np.asfortranarray(A)
+        elif step == "T":
+            A = np.ascontiguousarray(A.T).T            # a transposed view of a C array
+        elif step == "slice":
+            big = np.full((2 * A.shape[0] + 1, 3 * A.shape[1]), 7, dtype=A.dtype)
+            big[1::2, ::3] = A
+            A = big[1::2, ::3]                         # non-contiguous view
+        elif step == "ro":
+            A = A.copy(order="K")
+            A.setflags(write=False)
+    return A
 
 
 WEIGHTS = [0, -1, -2.5, 0.5, 3]
@@ -131,11 +157,13 @@ RULE = ("rt: for ADMG, CPDAG, PAG every acyclic graph on 2 and 3 nodes over all 
         "objects (_lab obj); mat: every zero-diagonal 2x2 matrix over each format's "
         "alphabet (numpy 0..33, causal-learn -1..6, pcalg 0..3) in 2 orders and every well-formed 3x3 matrix, import then "
         "export, the well-formed ones additionally as bool / int8 / uint8 / float64 / object arrays where the values fit (all "
-        "fitting dtypes for 2x2, one random dtype per 3x3); tet: Tetrad token lists for all such graphs through a scratch file (string labels, random line orientation); "
+        "fitting dtypes for 2x2, one random dtype per 3x3) and as F-ordered / transposed-view / sliced non-contiguous / read-only "
+        "arrays (input must not be modified); tet: Tetrad token lists for all such graphs through a scratch file (string labels, random line orientation); "
         "tetlab: Tetrad round trip of 3-node graphs whose str labels contain each printable ASCII punctuation character "
         "except the reserved ';' (alone, leading, trailing, inner, doubled), digits-only labels, look-alikes of edge strings / line "
-        "numbers / header words ('-->', 'o-o', '1.', 'Nodes:'), random labels of length 1-6 over punctuation+alphanumerics: exact "
-        "round trip demanded; labels the grammar cannot express (whitespace, ';', empty, 'Graph Nodes:') must either survive or be "
+        "numbers / header words ('-->', 'o-o', '1.', 'Nodes:'), random labels of length 1-6 over punctuation+alphanumerics, non-ASCII names (Greek, accented Latin precomposed and "
+        "combining, CJK, emoji, superscript / circled digits, zero-width space, BOM, mojibake look-alikes) in every position: exact "
+        "round trip demanded; labels the grammar cannot express (whitespace incl. U+00A0 / U+2003 / U+0085 / U+2028, ';', empty, 'Graph Nodes:') must either survive or be "
         "refused by the exporter with ValueError, never be damaged silently; the reserved set is cross-checked against the "
         "translated parser (tie T). The matrix formats carry labels in arr_idx lists, not in text. "
         "ts/tsarr: stationary directed and undirected ts graphs / lag arrays with 2 variables, max_lag<=2 exhaustive, 3 sampled. "
@@ -149,6 +177,9 @@ TRUSTED = ["numpy array arithmetic (nx.to_numpy_array, argwhere, transposition),
            "translator /verif/translator/codecs.py (tabulating Python-ast interpreter; its tables are re-checked cell by cell "
            "against the real functions on two-node graphs on every run)"]
 ASSUMPTIONS = ["default edge-type names", "Tetrad labels: strings without whitespace or ';'",
+               "Tetrad files are written and read with open()'s default encoding; the check runs under UTF-8 (the sandbox's Python UTF-8 "
+               "mode), where every str without lone surrogates can be encoded; the translator requires reader and writer to pass the same "
+               "mode / encoding arguments",
                "ananke / causallearn packages not installed: only pywhy-graphs' own matrix functions are in scope",
                "a pair state is 'expressible' as defined by C14/Defs.v adm (clearn <=2 edge types per ADMG pair, tetrad 1, pcalg no ADMG)"]
 SPOT_N = 25
@@ -225,6 +256,10 @@ def gen_cases(tier, rng):
                     fits = _fitting_dtypes(m)
                     for dt in (fits if n == 2 else [rng.choice(fits)]):
                         yield {"kind": "mat", "fmt": f, "cls": cls, "order": order, "m": m, "dtype": dt}
+                    # the same matrix as F-ordered / transposed-view / sliced (non-contiguous) / read-only array
+                    for lay in (LAYOUTS if n == 2 else [rng.choice(LAYOUTS)]):
+                        yield {"kind": "mat", "fmt": f, "cls": cls, "order": order, "m": m, "layout": lay,
+                               "dtype": rng.choice([None, "float64", "int8"])}
                 if nonempty and n == 3 and rng.random() < 0.15:
                     # identity-hashed label objects (a copied label would be a different node)
                     yield {"kind": "rt", "cls": cls, "g": dict(g, V=rng.choice(_orders(n, rng))), "_lab": "obj",
@@ -273,7 +308,7 @@ def gen_cases(tier, rng):
             for i, g in enumerate(small[cls]):
                 labs = [[c, "a" + c, c + "b"], ["a" + c + "b", c + c, "z"], ["q", c + "1", "2" + c]][i % 3]
                 yield {"kind": "tetlab", "cls": cls, "g": dict(g, V=rng.choice(_orders(3, rng))), "labels": labs}
-        for special in TETRAD_SPECIALS + TETRAD_INEXPRESSIBLE:
+        for special in TETRAD_SPECIALS + TETRAD_NONASCII + TETRAD_INEXPRESSIBLE:
             for pos in range(3):
                 g = rng.choice(small[cls])
                 labs = ["n0", "n1", "n2"]
@@ -284,8 +319,9 @@ def gen_cases(tier, rng):
             yield {"kind": "tetlab", "cls": cls, "g": gr.G([2, 0, 1], D=[(0, 1)]), "labels": ["n0", "n1", special]}
         for i in range(150 if not thorough else 1500):
             labs = set()
+            pool = free + list(alnum) + (list("\u03b1\u00e9\u8282\U0001F600\u0301\u00df") if i % 3 == 0 else [])
             while len(labs) < 3:
-                labs.add("".join(rng.choice(free + list(alnum) if rng.random() < 0.7 else free) for _ in range(rng.randint(1, 6))))
+                labs.add("".join(rng.choice(pool if rng.random() < 0.7 else free) for _ in range(rng.randint(1, 6))))
             ks = [rng.choice([k for k in KINDS[cls] if "&" not in k]) for _ in gr.pairs(3)]
             g = from_kinds(3, ks)
             if gr.is_acyclic(3, g["D"]):
@@ -616,8 +652,12 @@ def run_impl(case):
         nodes = [lab(a) for a in case["order"]]
         A = np.array(case["m"], dtype={"bool": bool, "int8": np.int8, "uint8": np.uint8, "float64": np.float64,
                                        "object": object, None: np.int64}[case.get("dtype")])
-        H = _import(case["fmt"], case["cls"], A.copy(), nodes)
+        A = _layout(A, case.get("layout"))
+        A_before = A.tolist()
+        H = _import(case["fmt"], case["cls"], A if case.get("layout") else A.copy(), nodes)
         out = {"g": _gobs(H, inv)}
+        if A.tolist() != A_before:
+            out["node_order"] = "INPUT ARRAY MUTATED"
         if list(H.nodes) != nodes:
             out["node_order"] = [inv(x) for x in H.nodes]
         try:
@@ -753,7 +793,7 @@ def key(case):
     if k == "rt":
         return (k, case["cls"], gr.canon(case["g"]), case.get("ctor") is not None, str(case.get("weights")), case.get("_lab"))
     if k == "mat":
-        return (k, case["cls"], case["fmt"], str(_canon_matrix(case["m"], case["order"])), case.get("dtype"), case.get("_lab"))
+        return (k, case["cls"], case["fmt"], str(_canon_matrix(case["m"], case["order"])), case.get("dtype"), case.get("_lab"), case.get("layout"))
     if k == "tet":
         return (k, case["cls"], str(_toks_obs(case["toks"])), len(case["order"]))
     return (k, case["directed"], case["ml"], str(case.get("st") or case.get("arr")))
